@@ -172,6 +172,20 @@ func (e *polyEnv) of(v ssa.Value, depth int) Poly {
 	case *ssa.UnOp:
 		if x.Op == token.MUL {
 			if ia, ok := x.X.(*ssa.IndexAddr); ok {
+				// store-to-load forwarding inside one block: coords[dim] = v; ... coords[dim]
+				blk := x.Block()
+				for i := instrIndex(x) - 1; i >= 0; i-- {
+					st, isSt := blk.Instrs[i].(*ssa.Store)
+					if !isSt {
+						if _, isCall := blk.Instrs[i].(*ssa.Call); isCall {
+							break
+						}
+						continue
+					}
+					if ia2, isIA := st.Addr.(*ssa.IndexAddr); isIA && ia2.X == ia.X && ia2.Index == ia.Index {
+						return e.of(st.Val, depth+1)
+					}
+				}
 				if n := e.baseName(ia.X); n != "" {
 					return polyAtom(n)
 				}
@@ -960,4 +974,183 @@ func c09span(c *Ctx, r *Result) {
 		r.Errorf("C09.7: readContiguousRowByRow no longer calls extractHyperslabRecursive")
 	}
 	r.Floor("C09.7", 2)
+}
+
+// ---- additional necessary conditions found by the third round of seeded changes ----
+
+func init() {
+	reg := registry["C09"]
+	reg.Meta.Rules["C09.8"] = "row-major stride tables: strides[i] = strides[i+1] * dims[i+1] (the extent multiplied in is that of the faster dimension)"
+	reg.Meta.Rules["C09.9"] = "pruning in the per-chunk extraction is justified: an iteration is skipped only where its coordinates are provably outside the chunk"
+	reg.Rules = append(reg.Rules, c09strides, c09pruning)
+}
+
+// c09strides: every self-recurrence X[i] = X[j] * D[k] over a stride table has k == j (the stride of dimension i is the
+// stride of the next faster dimension times THAT dimension's extent).
+func c09strides(c *Ctx, r *Result) {
+	n := 0
+	for _, fn := range c.LibFuncs() {
+		pk := shortPkg(fnPkgPath(fn))
+		if pk != "hdf5" && pk != "core" && pk != "writer" {
+			continue
+		}
+		fb := c.FB(fn)
+		instrs(fn, func(in ssa.Instruction) {
+			st, ok := in.(*ssa.Store)
+			if !ok {
+				return
+			}
+			dst, ok := st.Addr.(*ssa.IndexAddr)
+			if !ok {
+				return
+			}
+			mul, ok := st.Val.(*ssa.BinOp)
+			if !ok || mul.Op != token.MUL {
+				return
+			}
+			elemOf := func(v ssa.Value) (*ssa.IndexAddr, bool) {
+				ld, ok := isLoad(v)
+				if !ok {
+					return nil, false
+				}
+				ia, ok := ld.X.(*ssa.IndexAddr)
+				return ia, ok
+			}
+			a, okA := elemOf(mul.X)
+			b, okB := elemOf(mul.Y)
+			if !okA || !okB {
+				return
+			}
+			// which factor is the table itself?
+			self, other := a, b
+			if !sameSliceValue(a.X, dst.X) {
+				self, other = b, a
+			}
+			if !sameSliceValue(self.X, dst.X) || sameSliceValue(other.X, dst.X) {
+				return
+			}
+			n++
+			i, j, k := fb.lin(dst.Index), fb.lin(self.Index), fb.lin(other.Index)
+			// descending recurrence (row-major): j = i+1 and k = j.  ascending (column-major): j = i-1 and k = j.
+			okRec := k.equal(j) && (j.equal(i.add(linConst(1), 1)) || j.equal(i.add(linConst(1), -1)))
+			r.Check(okRec, "C09.8", c.Name(fn)+"#stride-recurrence", c.InstrPos(st), "stride["+fb.linString(i)+"] = stride["+fb.linString(j)+"] * extent["+fb.linString(k)+"]: the extent must be that of the dimension whose stride is multiplied")
+		})
+	}
+	if n < 2 {
+		r.Errorf("C09.8: only %d stride recurrences found (expected the two tables of copyNDChunk at least)", n)
+	}
+	r.Floor("C09.8", 2)
+}
+
+func sameSliceValue(a, b ssa.Value) bool {
+	if a == b {
+		return true
+	}
+	la, ok1 := isLoad(a)
+	lb, ok2 := isLoad(b)
+	if ok1 && ok2 {
+		return sameFieldAddr(la.X, lb.X) || la.X == lb.X
+	}
+	return false
+}
+
+// c09pruning: in extractChunkPortionRecursive every branch that skips the recursive call for some (c,b) iteration must carry,
+// on the skipping edge, either coord >= chunkEnd (everything that follows is larger) or blockStart + block <= chunkStart
+// (the whole block lies before the chunk).
+func c09pruning(c *Ctx, r *Result) {
+	fn := c.Fn(r, "hdf5.extractChunkPortionRecursive")
+	if fn == nil {
+		return
+	}
+	var rec *ssa.Call
+	for _, site := range callsIn(fn) {
+		if c.calleeName(site) == "hdf5.extractChunkPortionRecursive" {
+			rec, _ = site.(*ssa.Call)
+		}
+	}
+	if rec == nil {
+		r.Errorf("C09.9: recursive call of extractChunkPortionRecursive not found")
+		return
+	}
+	env := &polyEnv{c: c, fn: fn}
+	// loop region: blocks from which the recursive call is reachable and that are reachable from the outer loop header
+	canReachRec := map[*ssa.BasicBlock]bool{}
+	for _, b := range fn.Blocks {
+		if b == rec.Block() || reachableFrom(b, nil)[rec.Block()] {
+			canReachRec[b] = true
+		}
+	}
+	// the base case (dim == ndims) does not reach the recursion: restrict to blocks dominated by the first loop header
+	var loopHdr *ssa.BasicBlock
+	for _, b := range fn.DomPreorder() {
+		if canReachRec[b] {
+			for _, in := range b.Instrs {
+				if _, isPhi := in.(*ssa.Phi); isPhi && loopHdr == nil {
+					loopHdr = b
+				}
+			}
+		}
+	}
+	if loopHdr == nil {
+		r.Errorf("C09.9: extraction loops not found")
+		return
+	}
+	n := 0
+	for _, b := range fn.Blocks {
+		if !loopHdr.Dominates(b) || !canReachRec[b] {
+			continue
+		}
+		ifi, ok := b.Instrs[len(b.Instrs)-1].(*ssa.If)
+		if !ok {
+			continue
+		}
+		for i, s := range b.Succs {
+			// a skipping edge: from s the recursive call of THIS iteration is no longer reached without going through a loop header again
+			if reachesWithoutHeader(b, s, rec.Block(), fn) {
+				continue
+			}
+			// loop exits by the loop's own counter test (c < count, b < block) are not prunes
+			if cmp, isCmp := ifi.Cond.(*ssa.BinOp); isCmp {
+				if _, isPhi := cmp.X.(*ssa.Phi); isPhi && cmp.Op == token.LSS {
+					continue
+				}
+			}
+			n++
+			p, rel, okF := env.condFact(ifi.Cond, i == 0)
+			coord := P("start", 1, "i<count>*stride", 1, "i<block>", 1)
+			upper := coord.add(P("chunkend", 1), -1)                                  // coord - chunkEnd >= 0
+			lower := P("chunkstart", 1).add(P("start", 1, "i<count>*stride", 1, "block", 1), -1) // chunkStart - (blockStart + block) >= 0
+			lower2 := lower.add(polyConst(1), 1)                                              // chunkStart - (blockStart + block - 1) - 1 >= 0  (same thing written with <)
+			ok := okF && rel == ">=0" && (p.equal(upper) || p.equal(lower) || p.equal(lower2.add(polyConst(1), -1)))
+			what := "?"
+			if okF {
+				what = p.String() + " " + rel
+			}
+			r.Check(ok, "C09.9", c.Name(fn)+"#prune-justified", c.InstrPos(ifi), "an iteration is skipped on the condition "+what+"; accepted are coord >= chunkEnd or blockStart + block <= chunkStart (a block that starts before the chunk may still reach into it)")
+		}
+	}
+	if n == 0 {
+		r.Errorf("C09.9: no pruning branch found (the upper-bound exit was expected)")
+	}
+	r.Floor("C09.9", 1)
+}
+
+// reachesWithoutHeader: target is reachable from start without passing through the header of a loop that encloses `from`
+// (i.e. within the current iteration; entering an inner loop is fine).
+func reachesWithoutHeader(from, start, target *ssa.BasicBlock, fn *ssa.Function) bool {
+	stop := map[*ssa.BasicBlock]bool{}
+	for _, b := range fn.Blocks {
+		if len(b.Instrs) > 0 && len(b.Preds) > 1 {
+			if _, isPhi := b.Instrs[0].(*ssa.Phi); isPhi && b.Dominates(from) {
+				stop[b] = true
+			}
+		}
+	}
+	if start == target {
+		return true
+	}
+	if stop[start] {
+		return false
+	}
+	return reachableFrom(start, stop)[target]
 }
